@@ -23,7 +23,8 @@ Theorem C11_copy_bdd_rec_support fuel s0 src s u level_map cache r s' :
   | Ok (x, cache') => valid s' x ∧ ccache_ok s0 s' level_map cache' ∧
         ((0 < x)%Z ↔ (0 < u)%Z) ∧
         ∀ a, D s' x a = D s0 u (lmap level_map a)
-  | Err e => e = ENeedsReordering ∧ is_Some (last_len s)
+  | Err e => (e = ENeedsReordering ∧ is_Some (last_len s)) ∨
+               (e = ERuntime ∧ is_Some (max_nodes s))
   end.
 Proof. exact (copy_bdd_rec_spec_occ fuel s0 src s u level_map cache r s'). Qed.
 
@@ -40,7 +41,8 @@ Theorem C11_copy_bdd_rec fuel s0 src s u level_map cache r s' :
   | Ok (x, cache') => valid s' x ∧ ccache_ok s0 s' level_map cache' ∧
         ((0 < x)%Z ↔ (0 < u)%Z) ∧
         ∀ a, D s' x a = D s0 u (lmap level_map a)
-  | Err e => e = ENeedsReordering ∧ is_Some (last_len s)
+  | Err e => (e = ENeedsReordering ∧ is_Some (last_len s)) ∨
+               (e = ERuntime ∧ is_Some (max_nodes s))
   end.
 Proof. exact (copy_bdd_rec_spec fuel s0 src s u level_map cache r s'). Qed.
 
@@ -54,7 +56,7 @@ Proof. exact (occurs_lt s u l). Qed.
     [KeyError]): same function of the same-named variables; the source is only
     read; the target only grows. *)
 Theorem C11_copy_correct_support src s u r s' :
-  Inv src → Inv s → valid src u → last_len s = None →
+  Inv src → Inv s → valid src u → last_len s = None → max_nodes s = None →
   (∀ v l, vars src !! v = Some l → occurs src u l → is_Some (vars s !! v)) →
   copy_bdd src u s = (r, s') →
   ∃ x, r = Ok x ∧ Inv s' ∧ extends s s' ∧ valid s' x ∧
@@ -62,7 +64,7 @@ Theorem C11_copy_correct_support src s u r s' :
 Proof. exact (copy_bdd_spec_occ src s u r s'). Qed.
 
 Theorem C11_copy_correct src s u r s' :
-  Inv src → Inv s → valid src u → last_len s = None →
+  Inv src → Inv s → valid src u → last_len s = None → max_nodes s = None →
   (∀ v l, vars src !! v = Some l → is_Some (vars s !! v)) →
   copy_bdd src u s = (r, s') →
   ∃ x, r = Ok x ∧ Inv s' ∧ extends s s' ∧ valid s' x ∧
